@@ -192,6 +192,8 @@ func UseSites() []UseSite {
 		{Tag: "twin var Plain", Stmt: "var $v {q}Plain; _ = $v", Kind: UKNone, TONL: true},
 		{Tag: "shadow local Helper", Stmt: "func() { Helper := func() int { return 0 }; _ = Helper() }()", Kind: UKNone, TONL: true, Core: true},
 		{Tag: "shadow param Helper", Stmt: "func(Helper func() int) { _ = Helper() }(nil)", Kind: UKNone, TONL: true},
+		{Tag: "shadow local type Mock", Stmt: "func() { type Mock struct{ A int }; _ = Mock{}; var m Mock; _ = m; _ = func(Mock) {} }()", Kind: UKNone, TONL: true, Core: true},
+		{Tag: "shadow local type S with Reset", Stmt: "func() { type S struct{ Reset func() }; S{Reset: func() {}}.Reset() }()", Kind: UKNone, TONL: true},
 		{Tag: "shadow field-func Reset()", Stmt: "struct{ Reset func() }{Reset: func() {}}.Reset()", Kind: UKNone, TONL: true},
 		// elided element literals: the literal itself carries no type expression
 		{Tag: "lit elided []Mock{{}}", Stmt: "_ = []{q}Mock{{}}", Kind: UKType, Type: "Mock", TONL: true, Core: true},
@@ -499,7 +501,10 @@ func RenderUse(s *UseSpec) *UseRendered {
 		q = ""
 	} else if s.Spell == SpRenamedImp {
 		q = "dd."
+	} else if s.Spell == SpDotImport {
+		q = "" // every exported name of d is in the file scope of each importing file
 	}
+	dot := !inD && s.Spell == SpDotImport
 	mock, mock2 := q+"Mock", q+"Mock2"
 	switch s.Spell {
 	case SpLocalAlias:
@@ -537,6 +542,8 @@ func RenderUse(s *UseSpec) *UseRendered {
 		if !inD {
 			if s.Spell == SpRenamedImp {
 				w.add(`import dd "ex.com/m/d"`)
+			} else if dot {
+				w.add(`import . "ex.com/m/d"`)
 			} else {
 				w.add(`import "ex.com/m/d"`)
 			}
@@ -564,7 +571,7 @@ func RenderUse(s *UseSpec) *UseRendered {
 	w0.add("")
 	w0.add("func hsp() *" + q + "S { return nil }")
 	w0.add("")
-	if !inD {
+	if !inD && !dot {
 		w0.add("// Helper and Mock are this package's own, unannotated items; they only share their names with d's.")
 		w0.add("func Helper() int { return 0 }")
 		w0.add("")
@@ -672,8 +679,8 @@ func RenderUse(s *UseSpec) *UseRendered {
 		}
 		for ord, si := range b.Stmts {
 			st := &s.Sites[si]
-			if st.OnlyImporter && inD {
-				continue
+			if st.OnlyImporter && (inD || (dot && strings.HasPrefix(st.Tag, "own "))) {
+				continue // under a dot import the package cannot declare its own Helper / Mock
 			}
 			pre(w, "\t")
 			text := "\t" + subst(st.Stmt)
